@@ -211,8 +211,12 @@ def run(rep):
     rep.check(len(reset) == 1, "R15.b", file, "c_inside", "flag reset before the edge loop", "", line=outer.get("_line"))
     pre_all = cq.evaluate(cq.preceding(ostm, el))
     box = f"{PX} < polygon_xlim[0] || {PX} > polygon_xlim[1] || {PY} < polygon_ylim[0] || {PY} > polygon_ylim[1]"
-    skips = [r for r in pre_all.returns if r[0] == "ContinueStmt" and cq.holds(r[1], box, False)]
-    rep.check(bool(skips), "R15.b", file, "c_inside", "points strictly outside the bounding box are skipped (their flag is left as it arrived)", "", line=outer.get("_line"))
+    # decided on paths: whatever reaches the edge loop is inside the (closed) box, whatever is skipped is not known to be inside it
+    skips = [r for r in pre_all.returns if r[0] == "ContinueStmt"]
+    ends_ = [f_ for f_ in pre_all.finals if f_[2] == "end"]
+    okbox = bool(skips) and bool(ends_) and all(cq.excluded(f_[1], box, True) for f_ in ends_) and not any(cq.excluded(r[1], box, True) for r in skips)
+    rep.check(okbox, "R15.b", file, "c_inside", "points strictly outside the bounding box are skipped (their flag is left as it arrived)",
+              f"{len(skips)} skipping path(s), {len(ends_)} path(s) reach the edge loop", line=outer.get("_line"))
     # shim: bounding box from the polygon passed
     P = pyxread.load_all(rep.repo)
     sh = [s for s in P["c_hydrodiy_gis"]["shims"] if s.name == "points_inside_polygon"]
